@@ -39,6 +39,46 @@ def param_variants(rng, typ, thorough):
     return v
 
 
+def bhiksha_stream(ctx, stats):
+    """trie::ArrayBhiksha driven directly: model (extracted) vs implementation, and the round-trip oracle"""
+    rng = ctx.rng
+    drv = vlib.compile_driver("c03_bhiksha", os.path.join(vlib.ROOT, "harness", "drivers", "c03_bhiksha.cc"))
+    model = vlib.ocaml_model("C03")
+    cases = []
+    for _ in range(ctx.pick(400, 6000)):
+        n = rng.choice([2, 3, rng.range(2, 40), rng.range(40, 400)])
+        style = rng.below(4)
+        top = rng.choice([1, 5, 100, 5000, 1 << 20])
+        if style == 0:
+            vs = sorted(rng.below(top + 1) for _ in range(n))
+        elif style == 1:                      # one node with a huge child range, flat elsewhere
+            j = rng.below(n)
+            vs = [0 if i <= j else top for i in range(n)]
+        elif style == 2:                      # steps landing exactly on block boundaries
+            step = 1 << rng.range(0, 8)
+            vs = [min(top, (i // rng.range(1, 4)) * step) for i in range(n)]
+            vs.sort()
+        else:
+            vs = sorted(rng.choice([0, top // 2, top]) for _ in range(n))
+        if vs[-1] == 0:
+            vs[-1] = 1
+        cfg = rng.choice([0, 1, 2, 3, 5, 8, 22, 25, 64])
+        cases.append("BH %x %s" % (cfg, " ".join("%x" % v for v in vs)))
+    iout = vlib.run_lines(drv, cases)
+    mout = vlib.run_lines(model, cases)
+    problems = []
+    stats["bhiksha_cases"] = len(cases)
+    for c, a, b in zip(cases, iout, mout):
+        vs = [int(x, 16) for x in c.split()[2:]]
+        f = a.split()
+        exp = ["%x:%x" % (vs[i], vs[i + 1]) for i in range(len(vs) - 1)]
+        if f[2:] != exp:
+            problems.append(("spec:bhiksha-roundtrip", "ArrayBhiksha decodes %s..., stored %s..." % (" ".join(f[2:6]), " ".join(exp[:4])), {"case": c[:600], "impl": a[:300]}, True))
+        elif a != b:
+            problems.append(("correspondence:bhiksha", "implementation %s, model %s" % (a[:200], b[:200]), {"case": c[:600]}, False))
+    return problems
+
+
 def run(ctx):
     pres = vlib.coq_prove("C03")
     ctx.set_proof(pres)
@@ -152,6 +192,7 @@ def run(ctx):
         shutil.rmtree(sess.dir, ignore_errors=True)
         if len(problems) > 20:
             break
+    bh_problems = bhiksha_stream(ctx, stats)
     ctx.count("evaluations", stats["scores"])
     ctx.coverage["models"] = nmodels
     ctx.coverage["distinct_nontrivial"] = nontrivial
@@ -162,5 +203,12 @@ def run(ctx):
     ctx.assumptions += ["as C01", "quantised models: structural equality only; value losslessness is finding F5 (see known_findings.jsonl)"]
     for sig, what, rq in problems:
         ctx.report(sig, what, rq, True)
-    if not problems:
+    found = bool(problems)
+    for sig, what, rq, f in bh_problems:
+        if f:
+            found = True
+            ctx.report(sig, what, rq, True)
+    if not found:
+        for sig, what, rq, f in bh_problems:
+            ctx.report(sig, what, rq, False)
         ctx.report_proof(pres)
